@@ -221,7 +221,7 @@ def body_recreate(c0, warm_body, body1, body2, warm):
     mweb.call(app, "PROPFIND", mweb.CAL + "/", headers=[("Depth", "1")], xml=mweb.propfind_body("{DAV:}getetag"))
     d = mweb.call(app, "DELETE", mweb.CAL + "/")
     if d.status_class != "2xx":
-        return (True, "delete-refused")
+        return (False, "delete-refused")  # DELETE of an existing calendar collection is never refused (nor crashes)
     g = mweb.call(app, "GET", mweb.CAL + "/a.ics")
     if g.status_class != "404":
         return (False, "member-survived-delete")
